@@ -12,11 +12,11 @@ enum
 {
     OP_EVAL, OP_EVAL_ENUM, OP_EVAL_HINT, OP_HINT_CORRUPT, OP_EVAL_BATCH, OP_SEG_EVAL, OP_SEG_META,
     OP_DERIV, OP_UPDATE, OP_COPY, OP_ASSIGN, OP_DESTROY, OP_BAD_INIT, OP_AT, OP_DERIV_KEEP, OP_SELF_ASSIGN,
-    OP_HINT_SWEEP, OP_N
+    OP_HINT_SWEEP, OP_RESPLIT, OP_N
 };
 static const char *const kNames[] = {"eval", "eval_enum", "eval_hint", "hint_corrupt", "eval_batch", "seg_eval", "seg_meta",
                                      "deriv", "update", "copy", "assign", "destroy", "bad_init", "at", "deriv_keep", "self_assign",
-                                     "hint_sweep"};
+                                     "hint_sweep", "resplit"};
 
 static const int kHandles = 4;
 static const int kHints = 2;
@@ -386,7 +386,13 @@ struct World
                 int n = (int)(((o.I(1) % 9) + 9) % 9);
                 Rng r((uint64_t)o.I(2), 0xba);
                 std::vector<double> ts;
-                for (int q = 0; q < n; ++q) ts.push_back(pick_time(H.m, (int)r.below(7), (int64_t)r.below(64), r.unit()));
+                for (int q = 0; q < n; ++q)
+                {
+                    int tmq = (int)r.below(7);
+                    int64_t iq = (int64_t)r.below(64);
+                    double fq = r.unit();
+                    ts.push_back(pick_time(H.m, tmq, iq, fq));
+                }
                 int ord = (int)(((o.I(3) % (H.m.nc + 2)) + (H.m.nc + 2)) % (H.m.nc + 2));
                 auto res = (ord <= 6 && (o.I(3) & 16)) ? H.p->evaluate(ts, static_cast<SplineTrajectory::Deriv>(ord)) : H.p->evaluate(ts, ord);
                 SIM_CHECK((int)res.size() == n, "batch_size", "batch of " << n << " times returned " << res.size() << " values");
@@ -509,6 +515,35 @@ struct World
             {
                 int k = (int)(((o.I(0) % kHandles) + kHandles) % kHandles);
                 do_update(h[k], (int)o.I(1), (int)o.I(2), (uint64_t)o.I(3), (int)o.I(4), (o.I(5) & 1) != 0);
+                changed = true;
+                ctx.mark_nontrivial();
+                break;
+            }
+            case OP_RESPLIT:
+            {
+                // update with the SAME stacked coefficient matrix cut into segments differently (S*nc = S'*nc'),
+                // or with exactly the same arguments again
+                int k = pick_handle(o.I(0), true);
+                if (k < 0) break;
+                Handle &H = h[k];
+                (void)H.p->evaluate(H.m.b[0], (int)(((o.I(4) % H.m.nc) + H.m.nc) % H.m.nc)); // make sure caches exist
+                const int R = H.m.S() * H.m.nc;
+                std::vector<int> ncs;
+                for (int c = 1; c <= std::min(R, max_nc); ++c)
+                    if (R % c == 0 && c != H.m.nc) ncs.push_back(c);
+                Model m;
+                m.init = true;
+                m.C = H.m.C;
+                if (ncs.empty() || (o.I(1) & 7) == 0) { m.nc = H.m.nc; m.b = H.m.b; ctx.count("probe.update_with_identical_arguments"); }
+                else
+                {
+                    m.nc = ncs[(size_t)(((o.I(1) % (int64_t)ncs.size()) + (int64_t)ncs.size()) % (int64_t)ncs.size())];
+                    m.b = gen_breaks((uint64_t)o.I(2), R / m.nc, (int)o.I(3));
+                    ctx.count("probe.update_same_matrix_other_split");
+                }
+                H.p->update(m.b, m.C, m.nc);
+                H.m = std::move(m);
+                check_meta(H);
                 changed = true;
                 ctx.mark_nontrivial();
                 break;
@@ -672,14 +707,14 @@ inline Plan gen_plan(uint64_t seed, uint64_t index, Tier tier, int profile, int 
         add(OP_EVAL, 4); add(OP_EVAL_ENUM, 2); add(OP_EVAL_HINT, 8); add(OP_HINT_SWEEP, 3); add(OP_EVAL_BATCH, 2);
         add(OP_SEG_EVAL, 4); add(OP_SEG_META, 1); add(OP_DERIV, 4);
         if (f_hint) add(OP_HINT_CORRUPT, 4);
-        if (f_update) add(OP_UPDATE, 2);
+        if (f_update) { add(OP_UPDATE, 2); add(OP_RESPLIT, 1); }
         if (f_copy) { add(OP_COPY, 1); add(OP_ASSIGN, 1); }
         if (f_bad) add(OP_BAD_INIT, 1);
     }
     else if (profile == 1)
     {
         add(OP_EVAL, 8); add(OP_EVAL_ENUM, 1); add(OP_EVAL_HINT, 2); add(OP_SEG_EVAL, 2); add(OP_DERIV, 3); add(OP_SEG_META, 1);
-        if (f_update) add(OP_UPDATE, 6);
+        if (f_update) { add(OP_UPDATE, 6); add(OP_RESPLIT, 2); }
         if (f_copy) { add(OP_COPY, 3); add(OP_ASSIGN, 4); add(OP_SELF_ASSIGN, 1); add(OP_DERIV_KEEP, 2); }
         if (f_destroy) add(OP_DESTROY, 2);
         if (f_bad) add(OP_BAD_INIT, 2);
@@ -722,6 +757,7 @@ inline Plan gen_plan(uint64_t seed, uint64_t index, Tier tier, int profile, int 
                    (int64_t)r.below(1u << 30), (int64_t)r.below(8), r.chance(0.15) ? 1 : 0};
             break;
         case OP_COPY: case OP_ASSIGN: o.i = {(int64_t)r.below(kHandles), (int64_t)r.below(kHandles)}; break;
+        case OP_RESPLIT: o.i = {r.chance(0.7) ? 0 : (int64_t)r.below(kHandles), (int64_t)r.below(64), (int64_t)r.below(1u << 30), (int64_t)r.below(8), (int64_t)r.below(12)}; break;
         case OP_DESTROY: case OP_SELF_ASSIGN: o.i = {(int64_t)r.below(kHandles)}; break;
         case OP_BAD_INIT:
             o.i = {r.chance(0.7) ? 0 : (int64_t)r.below(kHandles), (int64_t)r.below(6), (int64_t)r.below(5), (int64_t)r.below(12), (int64_t)r.below(1u << 30), (int64_t)r.below(2)};
@@ -731,11 +767,11 @@ inline Plan gen_plan(uint64_t seed, uint64_t index, Tier tier, int profile, int 
         p.ops.push_back(std::move(o));
         // a fault is always followed by work on the state it touched
         int last = p.ops.back().kind;
-        if (last == OP_UPDATE || last == OP_BAD_INIT || last == OP_ASSIGN || last == OP_COPY || last == OP_HINT_CORRUPT)
+        if (last == OP_UPDATE || last == OP_RESPLIT || last == OP_BAD_INIT || last == OP_ASSIGN || last == OP_COPY || last == OP_HINT_CORRUPT)
         {
             Op f;
             f.kind = (last == OP_HINT_CORRUPT) ? OP_EVAL_HINT : (last == OP_BAD_INIT ? OP_UPDATE : OP_EVAL);
-            if (f.kind == OP_EVAL) { f.i = {last == OP_UPDATE ? p.ops.back().i[0] : p.ops.back().i[1], (int64_t)r.below(7), (int64_t)r.below(64), (int64_t)r.below(16)}; f.d = {r.unit()}; }
+            if (f.kind == OP_EVAL) { f.i = {(last == OP_UPDATE || last == OP_RESPLIT) ? p.ops.back().i[0] : p.ops.back().i[1], (int64_t)r.below(7), (int64_t)r.below(64), (int64_t)r.below(16)}; f.d = {r.unit()}; }
             else if (f.kind == OP_EVAL_HINT) { f.i = {(int64_t)r.below(kHandles), p.ops.back().i[0], (int64_t)r.below(7), (int64_t)r.below(64), (int64_t)r.below(32), 0}; f.d = {r.unit()}; }
             else { f.i = {p.ops.back().i[0], (int64_t)pick_S(), (int64_t)pick_nc(), (int64_t)r.below(1u << 30), (int64_t)r.below(8), 0}; }
             p.ops.push_back(std::move(f));
